@@ -69,7 +69,7 @@ func TestReplay(t *testing.T) {
 }
 
 func TestRandomHistories(t *testing.T) {
-	pbt.Check(t, 800, 40000, func(rt *rapid.T) {
+	pbt.Check(t, 800, 30000, func(rt *rapid.T) {
 		c := Case{Driver: "badger", Ops: hist.GenHistory(rt, 30, true)}
 		pbt.Current(rt, c)
 		if pbt.WantSample(rt) {
@@ -107,7 +107,7 @@ func TestExhaustiveHistories(t *testing.T) {
 	if _, ok := pbt.ReplayFile(); ok {
 		t.Skip("replay mode")
 	}
-	depth := pbt.Pick(3, 5)
+	depth := pbt.Pick(3, 4)
 	alpha := alphabet()
 	i := 0
 	var rec func(prefix []hist.Op, left int)
